@@ -10,12 +10,12 @@ PROPS = {
     "C01": {"suites": {"quick": SEQ("C01", 1500, 60000)["quick"] + [("seq", {"profile": "C20", "count": 600})], "thorough": SEQ("C01", 1500, 60000)["thorough"] + [("seq", {"profile": "C20", "count": 30000})]}, "design": "6/C01"},
     "C02": {"suites": {"quick": SEQ("C02", 1500, 60000)["quick"] + [("sched", {"profile": "C02", "count": 80, "per_case": 60}), ("stress", {"count": 800}), ("policy", {"profile": "C02", "count": 400})],
                        "thorough": SEQ("C02", 1500, 60000)["thorough"] + [("sched", {"profile": "C02", "count": 1500, "per_case": 2000}), ("stress", {"count": 20000}), ("policy", {"profile": "C02", "count": 20000})]}, "design": "6/C02", "projection": core.policy_projection()},
-    "C05": {"suites": {"quick": SEQ("C05", 1500, 60000)["quick"] + [("sched", {"profile": "C05", "count": 80, "per_case": 60}), ("stress", {"count": 800})],
-                       "thorough": SEQ("C05", 1500, 60000)["thorough"] + [("sched", {"profile": "C05", "count": 1500, "per_case": 2000}), ("stress", {"count": 20000})]}, "design": "6/C05"},
+    "C05": {"suites": {"quick": SEQ("C05", 1500, 60000)["quick"] + [("sched", {"profile": "C05", "count": 80, "per_case": 60}), ("stress", {"count": 800}), ("config", {"tier": "quick"})],
+                       "thorough": SEQ("C05", 1500, 60000)["thorough"] + [("sched", {"profile": "C05", "count": 1500, "per_case": 2000}), ("stress", {"count": 20000}), ("config", {"tier": "thorough"})]}, "design": "6/C05", "needs_memcrsd": True},
     "C06": {"suites": {"quick": SEQ("C06", 1500, 60000)["quick"] + [("sched", {"profile": "C06", "count": 100, "per_case": 60})],
                        "thorough": SEQ("C06", 1500, 60000)["thorough"] + [("sched", {"profile": "C06", "count": 1500, "per_case": 2000})]}, "design": "6/C06"},
     "C07": {"suites": SEQ("C07", 1500, 60000), "design": "6/C07"},
-    "C08": {"suites": {"quick": SEQ("C08", 1500, 60000)["quick"] + [("stress", {"count": 1000})], "thorough": SEQ("C08", 1500, 60000)["thorough"] + [("stress", {"count": 20000})]}, "design": "6/C08"},
+    "C08": {"suites": {"quick": SEQ("C08", 1500, 60000)["quick"] + [("stress", {"count": 1000}), ("config", {"tier": "quick"})], "thorough": SEQ("C08", 1500, 60000)["thorough"] + [("stress", {"count": 20000}), ("config", {"tier": "thorough"})]}, "design": "6/C08", "needs_memcrsd": True},
     "C11": {"suites": {"quick": SEQ("C11", 1500, 60000)["quick"] + [("conn", {"profile": "C11", "count": 20, "tier": "quick"})],
                        "thorough": SEQ("C11", 1500, 60000)["thorough"] + [("conn", {"profile": "C11", "count": 400, "tier": "thorough"})]}, "design": "6/C11"},
     "C19": {"suites": {"quick": [("seq", {"profile": "C19", "count": 1000}), ("conn", {"profile": "C12", "count": 30, "tier": "quick"})],
